@@ -2,7 +2,7 @@
 Pipe life model: a measure on states that every step strictly decreases — hence every run is
 finite and its length is bounded by the measure of its first state.
 -/
-import Rv.Lemmas.PipeLifeFrame
+import Rv.Lemmas.PipeLifeCount
 namespace Rv.PipeLife
 
 def CS.pot : CS → Nat
